@@ -513,7 +513,7 @@ func init() {
 		ID: "C17", Level: "model_checking",
 		Rule:      "(a) every sub-command form {search, root, pipeline, save, save-pipeline, history (+--stats/--top/--clear), alias, alias add/list/remove, setup, wizard, help, --version, --help, completion bash} x every argument vector of <=2 (quick) / <=3 (thorough) atoms from {word, phrase, -x, --, empty string, 1001 bytes, shell metacharacters, number, --limit, tar, --format=json}, stdin empty, + wizard tar/find/ffmpeg/unknown with 7 scripted answer streams: the real binary in an isolated home must finish with exit 0 or 1, without panic, signal or time-out. (b) the FULL product of 3 databases (2 entries, 12 equal-scoring entries, 40 entries) [plus a linux-only database with 3 typo queries, for which excluding platform flags leave no result but 'did you mean' suggestions] [and a reduced product - limit {absent,1,101} x format {absent,json} x -v x {colour, --no-color} x {none, -a} - for a damaged and a missing database file, which both end in the built-in list] x 10 queries (lexical, NLP-only, typo-fallback, recovery-only, no hit, metacharacter, 1001 bytes, case/white-space variant ...) x --limit {absent,0,1,3,100,101,-1} x --format {absent,table,json,JSON,xml} x -v x {colour, --no-color, NO_COLOR} x platform flags {none, -p linux, -p windows --no-cross-platform, -a} = 25,200 + 960 runs of the real binary (+ a preceding run for two thirds of them), each compared with the engine driven in-process through the same exported functions with the options the CLI constructs: same entries in the same order, count <= limit in force, JSON block parses with one object per result, no ESC byte when colour is off, history file parses with this query newest and the right length and result count; rejected requests neither search nor record. non-trivial = searches that print results",
 		Assume:    []string{"isolated HOME / XDG_CONFIG_HOME and an empty working directory (context = generic, no boosts)", "printed commands are single-line (test databases)", "the in-process engine runs with map order pinned; the binary with the runtime's order (equal by C02)"},
-		QuickSecs: 250, ThorSecs: 1500,
+		QuickSecs: 400, ThorSecs: 1800,
 		Run: c17Run,
 		Replay: func(c *lib.Ctx, raw json.RawMessage) []lib.Violation {
 			bin := os.Getenv("VERIF_WTF")
